@@ -28,6 +28,7 @@ def run_config(chk, tier, cfgname):
     for t in ("trace", "trace_weak", "resurrect", "mark_one", "sweep_one", "backward_barrier", "forward_barrier", "link"):
         typestate.apply(chk, "credited-at-most-once:" + t, t, aspects=("credits", "credits-over", "credits-repeat"))
     rules_debt.check_formula(chk, prog)
+    rules_debt.check_predicates(chk, prog)
     rules_debt.check_finish_cycle(chk, prog)
     rules_debt.check_sleep(chk, prog)
     rules_debt.check_helpers(chk, prog)
